@@ -309,4 +309,70 @@ class EvalScn:
                 "results": [{k: (r.get("result") or {}).get(k) for k in ("outcome", "cite", "flag", "val")} for r in c.get("rules") or []]}
 
 
-SCN = {"orch": Orch, "kc": KCScn, "eval": EvalScn}
+class CompileScn:
+    """aspects: accept (accept / reject per entry point), after (installed set after the call),
+    order (salience order of the installed set), crash (an entry point panicked), front (grammar
+    assumptions of the model), state (container self-consistency)."""
+
+    @staticmethod
+    def compare(c, o):
+        issues = []
+        def add(aspect, kind, ep, detail):
+            issues.append({"aspect": aspect, "kind": kind, "method": ep,
+                           "detail": "%s [%s text %r]: %s" % (ep, c.get("kind"), (c.get("text") or "")[:200], detail)})
+        if not (o or {}).get("valid", True):
+            add("front", "impl-vs-model", "front-end", "front-end outcome contradicts the grammar facts the model assumes: %s" % json.dumps(c.get("front"))[:300])
+        exp = {e["ep"]: e for e in (o or {}).get("eps") or []}
+        strict = c.get("kind") in ("valid", "nosal")
+        for r in c.get("results") or []:
+            ep = r["ep"]
+            e = exp.get(ep)
+            if e is None:
+                add("driver", "impl-vs-model", ep, "no model output")
+                continue
+            if r.get("panic"):
+                add("crash", "impl-vs-spec", ep, "entry point panicked: %s" % r.get("err"))
+                continue
+            if r.get("note"):
+                add("state", "impl-vs-model", ep, r["note"])
+            for side, kind in (("model", "impl-vs-model"), ("spec", "impl-vs-spec")):
+                if bool(r.get("ok")) != bool(e[side]):
+                    add("accept", kind, ep, "impl %s, %s %s (lexer errors %s, parser errors %s, listener errors %s) | %s"
+                        % ("accepts" if r.get("ok") else "rejects", side, "accepts" if e[side] else "rejects",
+                           len(c["front"].get("lex") or []), len(c["front"].get("parse") or []), len(c["front"].get("listener") or []), r.get("err", "")))
+                    continue
+                want = [(x["name"], x["sal"], x["ver"]) for x in e[side + "After"]]
+                if ep == "NewGenginePool" and not r.get("ok"):
+                    continue
+                got_q = sorted((x["name"], x["sal"]) for x in r.get("query") or [])
+                if got_q != sorted((n, s_) for n, s_, _ in want):
+                    add("after", kind, ep, "installed set (name, salience) is %s, %s says %s" % (got_q, side, sorted((n, s_) for n, s_, _ in want)))
+                    continue
+                if strict or not r.get("ok"):
+                    got = sorted((x["name"], x["sal"], x["ver"]) for x in r.get("after") or [])
+                    if got != sorted(want):
+                        add("after", kind, ep, "executing the installed set gives (name, salience, value) %s, %s says %s" % (got, side, sorted(want)))
+            sals = [x["sal"] for x in r.get("after") or []]
+            if (strict or not r.get("ok")) and any(a < b for a, b in zip(sals, sals[1:])):
+                add("order", "impl-vs-spec", ep, "sort model ran the installed rules in salience order %s" % sals)
+        return issues
+
+    @staticmethod
+    def classify(c):
+        return c.get("text", ""), any(r.get("ok") for r in c.get("results") or [])
+
+    @staticmethod
+    def histo(c):
+        f = c.get("front") or {}
+        yield "kind:%s" % c.get("kind")
+        yield "front:%s%s%s%s" % ("B" if f.get("blank") else "", "L" if f.get("lex") else "", "P" if f.get("parse") else "", "S" if f.get("listener") else "") 
+        yield "vector:" + "".join("A" if r.get("ok") else ("P" if r.get("panic") else "R") for r in c.get("results") or [])
+
+    @staticmethod
+    def sample(c, o):
+        return {"kind": c.get("kind"), "text": (c.get("text") or "")[:300],
+                "front": {k: len(v) if isinstance(v, list) else v for k, v in (c.get("front") or {}).items()},
+                "vector": "".join("A" if r.get("ok") else ("P" if r.get("panic") else "R") for r in c.get("results") or [])}
+
+
+SCN = {"orch": Orch, "kc": KCScn, "eval": EvalScn, "compile": CompileScn}
